@@ -1736,9 +1736,14 @@ impl SymbolTable {
             self.reference_table.remove(id);
         }
 
-        for symbols in self.name_table.values_mut() {
+        // Remove emptied entries too: `resolve` asks `name_table.contains_key`
+        // to tell a known name from one that was never declared, so an empty
+        // leftover entry changes which path element an unresolvable path
+        // reports as undefined.
+        self.name_table.retain(|_, symbols| {
             symbols.retain(|x| !drop_list.contains(x));
-        }
+            !symbols.is_empty()
+        });
 
         for tokens in self.reference_table.values_mut() {
             tokens.retain(|x| !is_drop_token(x, file_path, prj));
